@@ -21,12 +21,15 @@ PROPS["C18"] = {
     "rule": ("(a) workload = N in 2..16 goroutines x generated []Op over {sign, verify (all presets, pure/ctx/ph), batch verify, NewKeyFromSeed, "
              "X25519, ScalarBaseMult, MulBasepoint on ED25519_BASEPOINT_TABLE, verify with shared ExpandedPublicKeys, shared cache.Verifier "
              "(capacity 1..3, 6 valid + 2 hostile keys), sr25519 sign/verify through a shared SigningContext, hash-to-curve, Merlin on clones of a "
-             "shared transcript}, yield points and GOMAXPROCS from the case; non-trivial = at least two goroutines touch the same shared instance "
-             "(expanded key, cache verifier, signing context, base transcript, explicit basepoint-table op). "
-             "(b) history = capacity, key universe, prefill, 2..4 goroutines x 3..8 Get/Put with one fresh value pointer per Put; each case is "
-             "repeated 150 times (600 times without race instrumentation) in the child (evaluations = histories checked + quiescent invariant checks); non-trivial = some repetition had "
-             ">= 1 eviction along the linearization found and >= 1 pair of calls of different goroutines with intersecting [call,return] stamps; "
-             "distinct = FNV-64 of the serialised case"),
+             "shared transcript}; three generator shapes (mixed / cache-storm / sign-storm), yield points, GOMAXPROCS, cold-vs-warm start and "
+             "free-running-vs-lock-step rounds are part of the case; inputs are built with the standard library's crypto/ed25519 and verifref; "
+             "each case is repeated (op budget / case size, 3..30 times with -race, 10..300 without); evaluations = results compared with the "
+             "sequential ones; non-trivial = at least two goroutines touch the same shared instance (expanded key, cache verifier, signing "
+             "context, base transcript, explicit basepoint-table op, x25519.Basepoint). "
+             "(b) history = capacity, key universe, prefill, 2..4 goroutines x 3..8 Get/Put with one fresh value pointer per Put, optional "
+             "lock-step rounds; each case is repeated 150 times (600 times without race instrumentation) in the child (evaluations = histories "
+             "checked + quiescent invariant checks); non-trivial = some repetition had >= 1 eviction along the linearization found and >= 1 pair "
+             "of calls of different goroutines with intersecting [call,return] stamps; distinct = FNV-64 of the serialised case"),
     "assumptions": ["the Go race detector reports every data race it observes in an executed interleaving (no false positives)",
                     "porcupine and the brute-force checker are not wrong in the same way",
                     "the library's sequential results are the reference for the concurrent ones (their correctness is C01-C17)"],
